@@ -599,6 +599,9 @@ pub fn replay_case(case: &Value, mat: Mat) -> Option<Value> {
                     d.insert("noop", NoopRollerDeserializer);
                     let trig_cfg = match trig.as_str() {
                         "size" => json!({"kind": "size", "limit": limit_bytes}),
+                        // a limit of one unit: the documented default of one byte says the same about files made of
+                        // whole units (not empty = at least one unit), so the key is left out
+                        "startup" if limit == 1 => json!({"kind": "onstartup"}),
                         "startup" => json!({"kind": "onstartup", "min_size": limit_bytes}),
                         t => json!({"kind": "scripted", "pre": t == "pre"}),
                     };
